@@ -19,11 +19,11 @@ type Provider struct {
 	layoutPath   string
 	viewPath     string
 	extension    string
-	baseMutex    sync.Mutex
+	baseMutex    sync.RWMutex
 	baseTemplate *template.Template
-	layoutMutex  sync.Mutex
+	layoutMutex  sync.RWMutex
 	layouts      map[string]*template.Template
-	viewMutex    sync.Mutex
+	viewMutex    sync.RWMutex
 	views        map[string]*template.Template
 	funcs        template.FuncMap
 	isCached     bool
@@ -46,8 +46,11 @@ func NewProvider(fs filesystem.Filespace, helpersPath, layoutPath, viewPath, ext
 
 // Base return base template (with loaded helpers)
 func (provider *Provider) Base() (*template.Template, error) {
-	if provider.baseTemplate != nil {
-		return provider.baseTemplate, nil
+	provider.baseMutex.RLock()
+	baseTemplate := provider.baseTemplate
+	provider.baseMutex.RUnlock()
+	if baseTemplate != nil {
+		return baseTemplate, nil
 	}
 	return provider.base()
 }
@@ -83,7 +86,9 @@ func (provider *Provider) Layout(name string) (*template.Template, error) {
 	if name == "" {
 		name = goathtml.DefaultLayout
 	}
+	provider.layoutMutex.RLock()
 	tmpl, ok := provider.layouts[name]
+	provider.layoutMutex.RUnlock()
 	if ok {
 		return tmpl, nil
 	}
@@ -139,7 +144,10 @@ func (provider *Provider) View(layoutName, viewName string) (tmpl *template.Temp
 	}
 	key = layoutName + ":" + viewName
 	// check without lock (preformence feature)
-	if tmpl, ok = provider.views[key]; ok {
+	provider.viewMutex.RLock()
+	tmpl, ok = provider.views[key]
+	provider.viewMutex.RUnlock()
+	if ok {
 		return tmpl, nil
 	}
 	return provider.view(layoutName, viewName, key)
